@@ -539,6 +539,14 @@ func init() {
 		}
 		return args[1]
 	}
+	r["ClockReading"] = func(fr *frame, args []value) value {
+		k := args[0].(int)
+		w, _ := kindWidth(types.Int64)
+		if intModeOn() {
+			return symInt{mkVar(fmt.Sprintf("$now%d", k), sortInt), types.Int64}
+		}
+		return symInt{mkVar(fmt.Sprintf("$now%d", k), bvSort(w)), types.Int64}
+	}
 	r["Register"] = func(fr *frame, args []value) value { return nil }
 	r["InEngine"] = func(fr *frame, args []value) value { return true }
 }
